@@ -10,10 +10,13 @@ import hashlib, json, os, re, shutil, subprocess, sys, time, glob
 ROOT = os.path.dirname(os.path.dirname(os.path.abspath(__file__)))
 REPO = os.environ.get("VERIF_REPO", "/repo")
 BUILD = os.path.join(ROOT, "build")
-OUT = os.path.join(ROOT, "out")
+# runs against another tree (VERIF_REPO, used to evaluate seeded changes) keep their scratch output and their evidence apart:
+# the registered evidence files only ever describe /repo itself
+ALT = None if os.path.realpath(REPO) == "/repo" else hashlib.sha256(os.path.realpath(REPO).encode()).hexdigest()[:10]
+OUT = os.path.join(ROOT, "out") if ALT is None else os.path.join(ROOT, "out", "alt_" + ALT)
 SPEC = os.path.join(ROOT, "spec")
 HARNESS = os.path.join(ROOT, "harness")
-EVID = os.path.join(ROOT, "evidence")
+EVID = os.path.join(ROOT, "evidence") if ALT is None else os.path.join(OUT, "evidence")
 TLA_CP = "/opt/veriftools/tla/tla2tools.jar:/opt/veriftools/tla/CommunityModules-deps.jar"
 NCPU = os.cpu_count() or 4
 
